@@ -6,6 +6,7 @@ import (
 	"os"
 	"sort"
 	"strings"
+	"time"
 
 	"github.com/bufbuild/buf/private/buf/bufmigrate"
 	"github.com/bufbuild/buf/private/buf/bufworkspace"
@@ -67,9 +68,11 @@ type MigCase struct {
 	// StandaloneModules: there is no buf.work.yaml; every module directory is its own v1 workspace
 	// before migration (they are migrated together into one v2 workspace).
 	StandaloneModules bool `json:"standalone_modules,omitempty"`
-	// RefTie: two different refs of one dependency are declared and resolve to the same commit, so
-	// which of them the migrator writes is not determined (the second migration run is not compared).
-	RefTie bool `json:"-"`
+	// Registry tables of the dependency-merge worlds (reference data of the dependency oracle: what the
+	// generator put into the in-process registry): create time per commit (dashless), and per module
+	// name the commit every ref resolves to ("" = head of the default label). nil for the workspace grammar.
+	CommitTimes map[string]time.Time         `json:"-"`
+	RefCommits  map[string]map[string]string `json:"-"`
 }
 
 // declDep is one entry of a `deps:` list of a v1/v1beta1 buf.yaml.
@@ -571,8 +574,11 @@ type migDeps struct {
 	commit uuid.UUID
 	b4     string
 	prov   bufx.Providers
-	// mods: commit and b4 digest per remote module (dependency-merge worlds, migdeps.go)
-	mods map[string]depMod
+	// what the migrator is given (bufmigrate.NewMigrator)
+	keyProv    bufmodule.ModuleKeyProvider
+	commitProv bufmodule.CommitProvider
+	// reg: the registry with a history per module (dependency-merge worlds, migdeps.go / registry.go)
+	reg *multiRegistry
 }
 
 func newMigDeps() (*migDeps, error) {
@@ -593,7 +599,7 @@ func newMigDeps() (*migDeps, error) {
 	if err != nil {
 		return nil, err
 	}
-	return &migDeps{omni: omni, commit: commit, b4: b4.String(), prov: bufx.Providers{Graph: omni, ModuleData: omni, Commit: omni}}, nil
+	return &migDeps{omni: omni, commit: commit, b4: b4.String(), keyProv: omni, commitProv: omni, prov: bufx.Providers{Graph: omni, ModuleData: omni, Commit: omni}}, nil
 }
 
 // modView is what the property observes for one module.
@@ -871,6 +877,15 @@ func migrateOne(r sink, c MigCase, deps *migDeps, cov, skips *counter, full bool
 			views, _, err = viewWorkspace(ctx, bufx.MemBucket(files), deps)
 		}
 		if err != nil {
+			if c.Grammar == "deps" && c.Vector["d.digest"] != 0 && strings.Contains(err.Error(), "buf.lock") {
+				// The buf.lock files of the dependency worlds are valid by the documented format (see
+				// lockExpectation in buflock.go: commit-only entries and retired digest types are backfilled
+				// through the digest resolver the workspace provider installs): the reader must accept them.
+				class := map[int]string{1: "no-digest", 2: "retired-digest-type"}[c.Vector["d.digest"]]
+				r.Violate("accept/buf.lock/v1-or-v1beta1/"+class+"/workspace-provider",
+					"a v1 workspace whose buf.lock files are valid by the documented format ("+class+", backfilled from the registry) is rejected before migration: "+err.Error(), m{"kind": c.kind(), "case": c})
+				return
+			}
 			skip("workspace before: " + shorten(err.Error()))
 			return
 		}
@@ -901,7 +916,7 @@ func migrateOne(r sink, c MigCase, deps *migDeps, cov, skips *counter, full bool
 			r.Incomplete("migration harness: " + err.Error())
 			return nil, false
 		}
-		migrator := bufmigrate.NewMigrator(bufx.Logger, deps.omni, deps.omni)
+		migrator := bufmigrate.NewMigrator(bufx.Logger, deps.keyProv, deps.commitProv)
 		err = func() (err error) {
 			// a panic of the migrator is a finding about the workspace, not the end of the exploration
 			defer func() {
@@ -934,7 +949,7 @@ func migrateOne(r sink, c MigCase, deps *migDeps, cov, skips *counter, full bool
 		return
 	}
 	migrated := configFiles(afterFiles[0])
-	if full && !c.RefTie {
+	if full {
 		if afterFiles[1], ok = migrate(c.New); !ok {
 			return
 		}
@@ -963,6 +978,9 @@ func migrateOne(r sink, c MigCase, deps *migDeps, cov, skips *counter, full bool
 			r.Violate("migrate/leftover/"+base, "a v1 configuration file is still present after migration: "+p, m{"kind": c.kind(), "case": c, "migrated": migrated})
 		}
 	}
+	// the dependency oracle reads the migrated files only; it runs before the migrated workspace is built so
+	// that a wrong ref / pin is named as such even when it also breaks the build
+	checkMigratedDeps(r, c, afterFiles[0], migrated, cov)
 	var after [2]map[string][]*modView
 	for k := range afterFiles {
 		views, _, err := viewWorkspace(ctx, bufx.MemBucket(afterFiles[k]), deps)
@@ -985,8 +1003,9 @@ func migrateOne(r sink, c MigCase, deps *migDeps, cov, skips *counter, full bool
 	}
 	if c.Grammar == "" {
 		countMigClauses(cov, c, afterFiles[0])
+	} else {
+		countDepWorldClauses(cov, c)
 	}
-	checkMigratedDeps(r, c, afterFiles[0], migrated, cov)
 
 	for di, dir := range c.ModuleDirs {
 		// structural role of the module, used in signatures
@@ -1188,6 +1207,10 @@ func errClass(s string) string {
 			return "v1beta1-only-id-carried-into-v2"
 		}
 		return "unknown-rule-id/" + id
+	}
+	if strings.Contains(s, ": unknown type ") {
+		// a type of an imported file is gone (module dir, file, position and type name are the case's)
+		return "unknown-type-of-an-import"
 	}
 	return shorten(s)
 }
